@@ -16,6 +16,12 @@ Three explicit TLA+ specifications, each model-checked by TLC and bound to the r
                        SameArgsSameObject.  Behaviour replay AND trace validation
                        (ScopeConfigTrace.tla) of long random real histories.
 
+  ScopeIdentityConc.tla  the identity clause for CONCURRENT requests: threads Call / Lin (atomic lookup-or-
+                       create) / Ret on one provider; invariants SameIdentitySameObject,
+                       DifferentIdentityDifferentObject, RegistryOnePerIdentity in every interleaving.  Real
+                       providers used by 2-3 threads under the deterministic scheduler (harness/c19_conc.cc,
+                       flavour shim; random + PCT schedules) are validated by ScopeIdentityConcTrace.tla.
+
 spec -> code: harness/c19_*.cc (ASan+UBSan) concretises every abstract case through a fixed table,
 drives the public API and projects what a pull reader / capturing exporter sees.  Expected values
 always come out of TLC; this file only shuttles JSON and compares canonical forms.
@@ -573,6 +579,132 @@ def scope_traces(ctx, exe):
 
 
 # ================================================================================================
+# 4. identity under concurrent requests
+# ================================================================================================
+IDENT_INVS = "SameIdentitySameObject DifferentIdentityDifferentObject RegistryOnePerIdentity"
+
+
+def ident_cfg(threads, scopes, gets, atomic, inv):
+    return ("CONSTANTS\n  Threads <- %s  ScopeSet <- %s  MaxGets = %d  Atomic = %s\nINIT Init\nNEXT Next\nINVARIANTS %s\n" % (
+        threads, scopes, gets, "TRUE" if atomic else "FALSE", inv))
+
+
+def ident_jobs(ctx):
+    thorough = ctx.tier == "thorough"
+    return [
+        # every interleaving of 3 threads x 2 Gets over 3 identities (thorough: 4 identities incl. one without name)
+        Job("ident-mc", "ScopeIdentityConc", ident_cfg("T3", "Scopes4" if thorough else "Scopes3", 2, True, IDENT_INVS),
+            coverage=True, workers=3),
+        # vacuity guards of the model: racing first requests are in its schedule space, and a registry that looks up and
+        # registers in two steps is told apart by the invariant
+        Job("ident-wit-first", "ScopeIdentityConc", ident_cfg("T2", "Scopes2", 1, True, "NoRacingFirst"), workers=1),
+        Job("ident-wit-split", "ScopeIdentityConc", ident_cfg("T2", "Scopes2", 1, False, "SameIdentitySameObject"), workers=1),
+    ]
+
+
+def _racing_first(ex):
+    """(coverage measured on a log, not an oracle) did two calls for one identity overlap before any call for it returned?"""
+    pending, returned = {}, set()
+    for ln in ex[1:]:
+        v = json.loads(ln)
+        if v["e"] not in ("Call", "Ret"):
+            continue
+        k = canon(v["scope"])
+        if v["e"] == "Call":
+            if k not in returned:
+                pending[k] = pending.get(k, 0) + 1
+                if pending[k] >= 2:
+                    return True
+        else:
+            returned.add(k)
+    return False
+
+
+def ident_conc(ctx, exe, results):
+    """code -> spec: real providers used by several threads under the deterministic scheduler."""
+    thorough = ctx.tier == "thorough"
+    expect_status(results["ident-mc"], "ident-mc", "ok")
+    cov = results["ident-mc"].coverage
+    for a in ("Call", "Lin", "Ret"):
+        if cov.get(a, (0, 0))[0] == 0:
+            raise Broken("vacuity: action %s never taken in ident-mc (%s)" % (a, sorted(cov)))
+    for n, inv in (("ident-wit-first", "NoRacingFirst"), ("ident-wit-split", "SameIdentitySameObject")):
+        r = results[n]
+        if r.status != "invariant" or inv not in str(r.violated):
+            raise Broken("vacuity: %s must violate %s (status %s, violated %s)" % (n, inv, r.status, r.violated))
+    n = 2000 if thorough else 400
+    shapes = [(3, 2, 2), (2, 3, 2), (3, 3, 3)] + ([(4, 2, 2), (3, 3, 1)] if thorough else [])
+    runs = []
+    for ki, kind in enumerate(("trace", "metrics", "logs")):
+        for si, sh in enumerate(shapes):
+            runs.append(["explore", "random", n, ctx.seed * 37 + ki * 11 + si, kind] + list(sh))
+            runs.append(["explore", "pct", n, ctx.seed * 41 + ki * 13 + si, kind] + list(sh))
+    lines, bad = [], []
+    with cf.ThreadPoolExecutor(max_workers=6) as ex:
+        futs = [(a, ex.submit(hrun.run_harness, exe, a, timeout=900)) for a in runs]
+        for a, f in futs:
+            r = f.result()
+            out = [ln for ln in r.lines if ln.startswith("{")]
+            if r.rc in (3, 4) or r.crashed or r.timed_out:
+                last = max([i for i, ln in enumerate(out) if '"e":"Cfg"' in ln] or [0])
+                bad.append((a, r.rc, out[last:], r.err[-1500:]))
+                out = out[:last]
+            elif r.rc != 0:
+                raise Broken("c19_conc failed rc=%s args=%s: %s" % (r.rc, a, r.err[-1500:]))
+            lines += [ln for ln in out if '"e":"Summary"' not in ln]
+    execs = trace.split_executions(lines)
+    racing = {}
+    for e in execs:
+        k = json.loads(e[0])["kind"]
+        racing.setdefault(k, [0, 0])
+        racing[k][0] += 1
+        racing[k][1] += _racing_first(e)
+    ctx.extra["identity_conc_executions_by_kind"] = {k: v[0] for k, v in racing.items()}
+    ctx.extra["identity_conc_executions_with_racing_first_requests"] = {k: v[1] for k, v in racing.items()}
+    for k in ("trace", "metrics", "logs"):
+        if not bad and racing.get(k, [0, 0])[1] == 0:
+            raise Broken("vacuity: no %s execution in which first requests for one identity overlapped" % k)
+    nd = len(ctx.distinct)
+    res = trace.validate(ctx, "ScopeIdentityConcTrace", "ScopeIdentityConcTrace.cfg", lines, chunk=900, parallel=4, tag="ic",
+                         max_rejects=2)
+    ctx.extra["identity_conc_executions_validated"] = res["executions"]
+    ctx.extra["identity_conc_events_validated"] = res["events"]
+    ctx.extra["identity_conc_distinct_interleavings"] = len(ctx.distinct) - nd
+    ctx.extra["identity_conc_executions_rejected"] = len(res["rejected"])
+    ctx.extra["identity_conc_rejected_by_kind"] = {}
+    for rj in res["rejected"]:
+        kd = rj["events"][0].get("kind") if rj["events"] and isinstance(rj["events"][0], dict) else "?"
+        ctx.extra["identity_conc_rejected_by_kind"][kd] = ctx.extra["identity_conc_rejected_by_kind"].get(kd, 0) + 1
+    ctx.evaluations += res["events"]
+    shown = {}
+    for rj in res["rejected"]:
+        ev, at = rj["events"], rj["at"]
+        kd = ev[0].get("kind") if ev and isinstance(ev[0], dict) else "?"
+        shown[kd] = shown.get(kd, 0) + 1
+        if shown[kd] > 2:      # at most two per provider kind
+            continue
+        ctx.violation("identity under concurrent requests: ScopeIdentityConcTrace rejects a real %s-provider execution at event %d: %s "
+                      "(the same name/version/schema/attributes must yield the same object, different ones different objects, in "
+                      "every interleaving); execution %s" % (ev[0].get("kind"), at, json.dumps(ev[at]) if at < len(ev) else "?",
+                                                             json.dumps(ev[:at + 1])[:1500]),
+                      {"part": "conc-trace", "events": ev, "at": at})
+    for a, rc, out, err in bad[:3]:
+        tail = []
+        for x in out[-60:]:
+            try:
+                tail.append(json.loads(x))
+            except ValueError:
+                tail.append(x)
+        ctx.violation("identity under concurrent requests: a real execution %s (harness args %s): %s" % (
+            "got stuck (deadlock / livelock under the fair schedule)" if rc == 3 else "crashed (rc=%s)" % rc, a, _first_error(err)),
+            {"part": "conc-run", "args": [str(x) for x in a], "events": tail})
+    if execs:
+        pick = next((e for e in execs if _racing_first(e)), execs[0])
+        ctx.sample({"kind": "concurrent Get* execution (deterministic scheduler) validated by ScopeIdentityConcTrace.tla",
+                    "events": [json.loads(x) for x in pick[:16]]})
+
+
+# ================================================================================================
 def run(ctx):
     ctx.assumptions += [
         "concretisation tables of harness/c19_{names,views,scopes}.cc (byte classes partition 0..255; name tokens, units, meters, scope names) are part of the trusted base",
@@ -581,15 +713,18 @@ def run(ctx):
         "left open because the statement is silent: order of collected streams; monotonicity/temporality/values; a meter WITHOUT version/schema against a selector WITH one where the other fields do not already decide (the meter NAME is always compared: an unnamed meter is selected only by selectors without name); whether a drop view yields no stream or a stream of drop points; regex metacharacters inside exact names",
         "only the std::regex variants of the validators and PatternPredicate are executed (OPENTELEMETRY_HAVE_WORKING_REGEX == 0 cannot be selected with this compiler); the hand-written validators are compared with the statement inside the model only (HandAgrees)",
         "ABI v1: only GetLogger takes scope attributes; GetTracer/GetMeter identity is name/version/schema",
+        "identity under concurrent requests: sequentially consistent executions only (scheduler shim), schedules sampled (random + PCT), 2-4 threads x 2-3 Get calls over 1-3 identities, default (trivial) scope configurator",
     ]
     ctx.extra["rule"] = ("states/transitions: TLC over InstrumentNames (whole partition), Views (bounded state graph) and ScopeConfig "
                          "(+ trace-validation runs); traces_validated: TLC-generated cases/behaviours replayed on the real SDK "
                          "(one per harness output line) + real provider histories validated by ScopeConfigTrace; "
                          "distinct_nontrivial: distinct (abstract name/unit case[, byte]) + distinct (view list, instrument) pairs + "
                          "distinct scope behaviours + validated executions")
+    bex = cf.ThreadPoolExecutor(max_workers=1)
+    fconc = bex.submit(build.harness, "c19_conc", ["c19_conc.cc"], "shim")
     exe = build.harness("c19_replay", ["c19_main.cc", "c19_names.cc", "c19_views.cc", "c19_scopes.cc"], "asan")
     log("harness built at %.1fs" % ctx.timer.s())
-    jobs = names_jobs(ctx) + views_jobs(ctx) + scope_jobs(ctx)
+    jobs = names_jobs(ctx) + views_jobs(ctx) + scope_jobs(ctx) + ident_jobs(ctx)
     # longest first
     order = {"views-mc-pairs": 0, "views-mc-select": 1, "views-mc-shape": 2}
     jobs.sort(key=lambda j: order.get(j.name, 9))
@@ -603,6 +738,8 @@ def run(ctx):
     log("scopes replayed at %.1fs" % ctx.timer.s())
     scope_traces(ctx, exe)
     log("scope traces validated at %.1fs" % ctx.timer.s())
+    ident_conc(ctx, fconc.result(), results)
+    log("concurrent identity validated at %.1fs" % ctx.timer.s())
     for e in range(ctx.extra.get("scope_executions_validated", 0)):
         ctx.distinct.add(("exec", e))
     ctx.evaluations = (ctx.extra.get("names_replays", 0) + ctx.extra.get("views_instrument_cases_compared", 0)
@@ -623,6 +760,14 @@ def replay(ctx, path):
             ctx.violation("replayed history rejected by ScopeConfigTrace at event %d" % rj["at"],
                           {"part": "trace", "events": rj["events"], "at": rj["at"]})
         ctx.sample({"kind": "replayed history", "events": rep["events"][:10]})
+        return
+    if part == "conc-trace":
+        lines = [json.dumps(e) for e in rep["events"]]
+        res = trace.validate(ctx, "ScopeIdentityConcTrace", "ScopeIdentityConcTrace.cfg", lines, parallel=1, tag="replay")
+        for rj in res["rejected"]:
+            ctx.violation("replayed concurrent execution rejected by ScopeIdentityConcTrace at event %d" % rj["at"],
+                          {"part": "conc-trace", "events": rj["events"], "at": rj["at"]})
+        ctx.sample({"kind": "replayed concurrent execution", "events": rep["events"][:16]})
         return
     if part not in ("names", "views", "scopes") or not rep.get("line"):
         raise Broken("replay file has no replayable case; re-run the check with the recorded seed")
